@@ -28,8 +28,10 @@ CHECK = Check(
 )
 
 TOL = 1e-9
-W_AP = {"T": 1, "H": 1, "Q": 1, "Z": 1, "F": 0, "G": 0, "I": 0}
-W_APH = {"T": Fraction(1), "H": Fraction(1, 2), "Q": Fraction(3, 4), "Z": Fraction(0), "F": 0, "G": 0, "I": 0}
+# P: TP whose ground truth is pitched by 0.4 rad while the (yaw-only) estimate has the same heading — both at yaw 0, where
+# every Euler convention gives heading difference 0: full heading agreement, weight 1
+W_AP = {"T": 1, "H": 1, "Q": 1, "Z": 1, "P": 1, "F": 0, "G": 0, "I": 0}
+W_APH = {"T": Fraction(1), "H": Fraction(1, 2), "Q": Fraction(3, 4), "Z": Fraction(0), "P": Fraction(1), "F": 0, "G": 0, "I": 0}
 YAW_OFF = {"T": 0.0, "H": 1.5707963267948966, "Q": 0.7853981633974483, "Z": 3.141592653589793}
 _CACHE = {}
 
@@ -49,6 +51,9 @@ def result_for(sym, rank, tied=False, label="car"):
     gyaw = 0.3
     g = {"p": [10.0, 5.0, 0.0], "yaw": gyaw, "size": [2.0, 4.0, 1.5], "label": label, "score": 1.0, "uuid": f"g{rank}"}
     e = {"p": [10.2, 5.0, 0.0], "yaw": gyaw + YAW_OFF.get(sym, 0.0), "size": [2.0, 4.0, 1.5], "label": label, "score": conf_of(rank, tied), "uuid": f"e{rank}"}
+    if sym == "P":
+        g.update(yaw=0.0, pr=[0.4, 0.0])
+        e.update(yaw=0.0)
     if sym == "F":
         r = DynamicObjectWithPerceptionResult(D.obj3d(e), None)
     elif sym == "G":
@@ -205,7 +210,7 @@ def rankings_exhaustive(ctx, d):
 @st.composite
 def long_rankings(draw, tier="quick"):
     n = draw(st.sampled_from([8, 20, 60, 150, 300] if tier == "thorough" else [8, 20, 60, 120]))
-    mix = draw(st.sampled_from(["THQZFGI", "TTTTFG", "TFFFFGI", "THQZ", "FGI", "TTHI"]))
+    mix = draw(st.sampled_from(["THQZFGI", "TTTTFG", "TFFFFGI", "THQZ", "FGI", "TTHI", "TPHFP", "PPG"]))
     syms = "".join(draw(st.lists(st.sampled_from(mix), min_size=1, max_size=n)))
     n_tp = sum(W_AP[s] for s in syms)
     g = draw(st.sampled_from([n_tp, n_tp, n_tp + 1, n_tp + draw(st.integers(0, 20)), max(0, n_tp - 1), 0]))
@@ -232,7 +237,7 @@ def map_cases(draw, tier="quick"):
         if draw(st.integers(0, 3)) == 0:
             syms = ""
         else:
-            syms = "".join(draw(st.lists(st.sampled_from("THQZFGI"), min_size=1, max_size=10)))
+            syms = "".join(draw(st.lists(st.sampled_from("THQZPFGI"), min_size=1, max_size=10)))
         n_tp = sum(W_AP[c] for c in syms)
         g = draw(st.sampled_from([n_tp, n_tp + 1, n_tp + 3, 0 if n_tp == 0 else n_tp]))
         buckets[lab] = {"r": syms, "gt": g}
@@ -247,7 +252,7 @@ def _w(sym, thr, table):
     """Weight of a symbol under a centre-distance threshold `thr` (T/H/Q/Z pairs are 0.2 m apart, G pairs 3 m)."""
     if sym == "G":
         return 1 if 3.0 < thr else 0
-    if sym in ("T", "H", "Q", "Z"):
+    if sym in ("T", "H", "Q", "Z", "P"):
         return table[sym] if 0.2 < thr else 0
     return 0
 
